@@ -756,6 +756,10 @@ func (data *Data) UpdateSchema(database string, retentionPolicy string, mst stri
 		newSchema := NewCleanSchema(0)
 		msti.Schema = &newSchema
 	}
+	// validate the whole request first: a rejected request must not change the schema
+	if err = checkFieldsToCreate(msti.Schema, fieldToCreate); err != nil {
+		return err
+	}
 	if SchemaCleanEn {
 		cleanSchema := msti.Schema
 		for i := range fieldToCreate {
@@ -785,6 +789,34 @@ func (data *Data) UpdateSchema(database string, retentionPolicy string, mst stri
 		}
 	}
 
+	return nil
+}
+
+// checkFieldsToCreate reports a type conflict of the requested fields with the schema or
+// with each other, without changing anything.
+func checkFieldsToCreate(schema *CleanSchema, fieldToCreate []*proto2.FieldSchema) error {
+	var pending map[string]int8
+	for i := range fieldToCreate {
+		name, typ := fieldToCreate[i].GetFieldName(), fieldToCreate[i].GetFieldType()
+		if schema != nil {
+			if existVal, ok := (*schema)[name]; ok {
+				if int32(existVal.Typ) != typ {
+					return ErrFieldTypeConflict
+				}
+				continue
+			}
+		}
+		if pendingTyp, ok := pending[name]; ok {
+			if int32(pendingTyp) != typ {
+				return ErrFieldTypeConflict
+			}
+			continue
+		}
+		if pending == nil {
+			pending = make(map[string]int8, len(fieldToCreate))
+		}
+		pending[name] = int8(typ)
+	}
 	return nil
 }
 
@@ -883,6 +915,10 @@ func (data *Data) CreateShardGroupWithBounds(db string, rp *RetentionPolicyInfo,
 func (data *Data) createVersionMeasurement(db string, rp *RetentionPolicyInfo, shardKey *proto2.ShardKeyInfo, numOfShards int32,
 	indexR *proto2.IndexRelation, ski *ShardKeyInfo, mst string, version uint32, engineType config.EngineType,
 	colStoreInfo *ColStoreInfo, schemaInfo []*proto2.FieldSchema, options *proto2.Options) error {
+	// the schema of a new measurement can only conflict with itself; reject before creating
+	if err := checkFieldsToCreate(nil, schemaInfo); err != nil {
+		return err
+	}
 	sgLen := len(rp.ShardGroups)
 	if sgLen == 0 {
 		ski.ShardGroup = data.MaxShardGroupID + 1
